@@ -1,7 +1,7 @@
 """Core message family (module PbCodec / PbObject): C03-C17, C28-C31 share one specification and one harness package."""
 import json, os, subprocess, time
 import vlib
-from props import check, cfg, MODULE_OF, HARNESS_PKGS
+from props import check, cfg, MODULE_OF, HARNESS_PKGS, TRACE_ENV
 from vlib import tlc, build_harness, replay_tour, scratch, harness, validate_trace, read_ndjson, log
 
 PKG = ("msg",)
@@ -48,6 +48,17 @@ def all_types(binary):
         harness(binary, ["exec", "typelist", inp, inp + ".out"])
         _all_types[binary] = next(read_ndjson(inp + ".out"))["out"]["types"]
     return _all_types[binary]
+
+
+def _case_schema(binary, case):
+    ts = case.get("_types") or [case["type"]]
+    return {"SCHEMA": export_schema(binary, tuple(ts))}
+
+
+TRACE_ENV["Trace_PbObject"] = _case_schema
+TRACE_ENV["Trace_PbDecode"] = _case_schema
+TRACE_ENV["Trace_PbTextCodecs"] = lambda binary, case: {"SCHEMA": det_schema(binary)}
+TRACE_ENV["Trace_PbDet"] = lambda binary, case: {"SCHEMA": det_schema(binary)}
 
 
 def tlaset(xs):
